@@ -90,7 +90,10 @@ where
             }
             StreamElement::Watermark(ts) => {
                 self.last_watermark = Some(ts);
-                let split = self.ws.partition_point(|w| w.end < ts);
+                // a watermark `ts` closes every window ending at or before it: firing here, before
+                // the watermark is forwarded, keeps the result (stamped with the window end) ahead
+                // of any watermark that covers it
+                let split = self.ws.partition_point(|w| w.end <= ts);
                 self.ws
                     .drain(..split)
                     .filter(|w| w.active)
